@@ -16,7 +16,7 @@ type sgen struct {
 	nodefault bool
 }
 
-var namePool = []string{"a", "b", "c", "a.a", "", "é", "$schema", "id", "headers", "default", "properties", "items", "x-1", "0"}
+var namePool = []string{"a", "b", "c", "a.a", "", "é", "$schema", "id", "headers", "default", "properties", "items", "x-1", "0", "example", "examples", "type"}
 var patPool = []string{"^a", "b$", "^[a-c]+$", "^x-", "é", "^$", "a.a", "^(id|items)$", "[0-9]"}
 var badPatPool = []string{"(", "[a-", "a{2,1}", "\\"}
 var strPool = []string{"", "a", "b", "abc", "a.a", "é", "éé", "x-1", "2020-01-01", "not-a-date", "foo@example.com", "日本語", "id", "0", "aaaa", "7f3a2b10-4c1d-4e8a-9b0e-1234567890ab"}
@@ -503,6 +503,10 @@ func (g *sgen) instanceFor(s map[string]interface{}, root map[string]interface{}
 				l = append(l, g.anyValue(1))
 			}
 		}
+		// the first element beyond the tuple is where off-by-one errors of the additional-items loop show
+		if tuple != nil && addl != nil && len(l) > len(tuple) && g.p(30) {
+			l[len(tuple)] = g.otherTyped(addl)
+		}
 		return l
 	case "object":
 		m := map[string]interface{}{}
@@ -532,6 +536,36 @@ func (g *sgen) instanceFor(s map[string]interface{}, root map[string]interface{}
 						m[k] = g.anyValue(1)
 					}
 				}
+			}
+		}
+		if deps, ok := s["dependencies"].(map[string]interface{}); ok {
+			for _, dk := range sortedKeys(deps) {
+				if _, has := m[dk]; !has && g.p(70) {
+					m[dk] = g.anyValue(1)
+				}
+				if _, has := m[dk]; !has {
+					continue
+				}
+				if lst, ok := deps[dk].([]interface{}); ok {
+					for _, d := range lst {
+						name, _ := d.(string)
+						if !g.p(85) {
+							continue
+						}
+						if g.p(35) {
+							m[name] = nil // present with value null: presence, not non-nil-ness, is what counts
+						} else if _, has := m[name]; !has {
+							m[name] = g.anyValue(1)
+						}
+					}
+				}
+			}
+		}
+		// objects that look like schemas (Swagger pre-checks look at "type"/"items" members of the *instance*)
+		if g.p(6) {
+			m["items"] = g.anyValue(1)
+			if g.p(50) {
+				m["type"] = g.pick([]string{"array", "string", "object"})
 			}
 		}
 		if g.p(35) {
@@ -585,7 +619,12 @@ func (g *sgen) mutate(v interface{}, depth int) interface{} {
 			c[k] = g.mutate(x[k], depth-1)
 			return c
 		}
-		switch g.rng.Intn(3) {
+		switch g.rng.Intn(4) {
+		case 3:
+			if len(keys) > 0 {
+				c[keys[g.rng.Intn(len(keys))]] = nil
+				return c
+			}
 		case 0:
 			if len(keys) > 0 {
 				delete(c, keys[g.rng.Intn(len(keys))])
@@ -668,4 +707,24 @@ func (g *sgen) instance0(s map[string]interface{}) interface{} {
 		}
 		return v
 	}
+}
+
+// otherTyped returns a value whose JSON type differs from the type the schema declares (any value when it declares none)
+func (g *sgen) otherTyped(s map[string]interface{}) interface{} {
+	ts := typesOf(s)
+	cands := []interface{}{"x", 1.5, true, nil, []interface{}{}, map[string]interface{}{}}
+	names := []string{"string", "number", "boolean", "null", "array", "object"}
+	for tries := 0; tries < 8; tries++ {
+		i := g.rng.Intn(len(cands))
+		ok := true
+		for _, t := range ts {
+			if t == names[i] || (t == "integer" && names[i] == "number") {
+				ok = false
+			}
+		}
+		if ok {
+			return cands[i]
+		}
+	}
+	return g.anyValue(0)
 }
